@@ -9,7 +9,7 @@ CONSTANTS Keys = {"k0", "k1"}
           Interval = 2
           Initial = 1
           FailRetry = 1
-          MaxT = 6
+          MaxT = 5
           MaxSeq = 1
           MaxOps = 3
           MaxRounds = 0
